@@ -28,3 +28,130 @@ package gpbft
 //@   ensures 3*part > whole + 2 ==> result
 //@   nooverflow
 //@   pure
+
+//@ pred supportOf(q *quorumState, key ECChainKey) = ite(has(q.chainSupport, key), q.chainSupport[key].power, 0)
+
+//@ pred tallyBounds(q *quorumState) = q.powerTable.ScaledTotal >= 0 && q.powerTable.ScaledTotal <= 65535
+//@     && 0 <= q.sendersTotalPower && q.sendersTotalPower <= q.powerTable.ScaledTotal
+//@     && forall(ECChainKey(k), has(q.chainSupport, k) ==> 0 <= q.chainSupport[k].power && q.chainSupport[k].power <= q.sendersTotalPower)
+
+//@ func (*quorumState).CouldReachStrongQuorumFor
+//@   property C08
+//@   requires tallyBounds(q)
+//@   ensures result == strong(supportOf(q, key) + (q.powerTable.ScaledTotal - q.sendersTotalPower)
+//@        + ite(withAdversary, q.powerTable.ScaledTotal / 3, 0), q.powerTable.ScaledTotal)
+//@   nooverflow
+//@   pure
+
+//@ func (*quorumState).ReceivedFromStrongQuorum
+//@   property C08
+//@   requires tallyBounds(q)
+//@   ensures result == strong(q.sendersTotalPower, q.powerTable.ScaledTotal)
+//@   pure
+
+//@ func (*quorumState).ReceivedFromWeakQuorum
+//@   property C08
+//@   requires tallyBounds(q)
+//@   ensures result ==> 3*q.sendersTotalPower > q.powerTable.ScaledTotal
+//@   pure
+
+// ---- C08 lemmas: proved from the contracts above, never from the bodies ----
+
+//@ lemma quorum_intersection
+//@   property C08, C01
+//@   vars a int64, b int64, T int64, ra bool, rb bool
+//@   assume 0 <= T && T <= 65535 && 0 <= a && a <= T && 0 <= b && b <= T
+//@   call ra = IsStrongQuorum(a, T)
+//@   call rb = IsStrongQuorum(b, T)
+//@   assert[overlap_at_least_third] ra && rb ==> 3*(a + b - T) >= T
+//@   assert[overlap_exceeds_faulty] forall(mathint(f), ra && rb && 3*f < T ==> a + b - T > f)
+
+//@ lemma weak_quorum_facts
+//@   property C08
+//@   vars p int64, T int64, w bool, s bool
+//@   assume 0 <= T && T <= 65535 && 0 <= p && p <= T
+//@   call w = hasWeakQuorum(p, T)
+//@   call s = IsStrongQuorum(T - p, T)
+//@   assert[weak_exceeds_third] w ==> 3*p > T
+//@   assert[complement_of_weak_not_strong] w ==> !s
+
+//@ lemma strong_threshold_exact
+//@   property C08
+//@   vars p int64, T int64, s bool, s1 bool
+//@   assume 0 <= T && T <= 65535 && 1 <= p && p <= T
+//@   call s = IsStrongQuorum(p, T)
+//@   call s1 = IsStrongQuorum(p - 1, T)
+//@   assert[monotone] s1 ==> s
+//@   assert[exact] s == (3*p >= 2*T)
+
+//@ lemma could_reach_is_sound
+//@   property C08, C01
+//@   vars q *quorumState, key ECChainKey, r bool, ra bool
+//@   assume tallyBounds(q)
+//@   call r = (*quorumState).CouldReachStrongQuorumFor(q, key, false)
+//@   call ra = (*quorumState).CouldReachStrongQuorumFor(q, key, true)
+//@   assert[no_assignment_of_unvoted_power_reaches] forall(mathint(x), !r && 0 <= x && x <= q.powerTable.ScaledTotal - q.sendersTotalPower
+//@        ==> !strong(supportOf(q, key) + x, q.powerTable.ScaledTotal))
+//@   assert[not_even_with_a_third_of_double_votes] forall(mathint(x), !ra && 0 <= x && 3*x <= 3*(q.powerTable.ScaledTotal - q.sendersTotalPower) + q.powerTable.ScaledTotal
+//@        ==> !strong(supportOf(q, key) + x, q.powerTable.ScaledTotal))
+//@   assert[adversary_only_widens] r ==> ra
+
+// ---- power scaling ----
+
+//@ func scalePower
+//@   property C08
+//@   requires total > 0 && power >= 0
+//@   ensures power <= total ==> result1 == nil && 0 <= result0 && result0 <= 65535
+//@        && result0*total <= 65535*power && 65535*power < (result0+1)*total
+//@   ensures power > total ==> result1 != nil
+//@   nooverflow
+//@   pure
+
+//@ spec func sumPow(p PowerEntries, n mathint) mathint
+//@ pred sumPowDef(p PowerEntries) = sumPow(p, 0) == 0 && forall(n, 0, len(p), sumPow(p, n+1) == sumPow(p, n) + p[n].Power, trigger(p[n]))
+//@ pred scaledOK(s mathint, pw mathint, T mathint) = 0 <= s && s <= 65535 && s*T <= 65535*pw && 65535*pw < (s+1)*T
+
+//@ func (PowerEntries).Scaled
+//@   property C08
+//@   requires sumPowDef(p)
+//@   ensures forall(i, 0, len(p), p[i].Power > 0) ==> err == nil
+//@   ensures err == nil ==> len(scaled) == len(p) && 0 <= total && total <= 65535
+//@   ensures err == nil ==> forall(i, 0, len(p), scaledOK(scaled[i], p[i].Power, sumPow(p, len(p))))
+//@   nooverflow
+//@   loop 1
+//@     invariant totalUnscaled == sumPow(p, iter) && totalUnscaled >= 0
+//@     invariant forall(j, 0, iter, p[j].Power > 0 && p[j].Power <= sumPow(p, iter))
+//@     invariant forall(n, 0, iter+1, 0 <= sumPow(p, n) && sumPow(p, n) <= sumPow(p, iter), trigger(sumPow(p, n)))
+//@   loop 2
+//@     invariant len(scaled) == len(p) && totalUnscaled == sumPow(p, len(p)) && totalUnscaled >= 0
+//@     invariant forall(j, 0, len(p), p[j].Power > 0 && p[j].Power <= totalUnscaled)
+//@     invariant forall(n, 0, len(p)+1, 0 <= sumPow(p, n) && sumPow(p, n) <= totalUnscaled, trigger(sumPow(p, n)))
+//@     invariant (iter == 0 ==> total == 0) && 0 <= total && total*totalUnscaled <= 65535*sumPow(p, iter)
+//@     invariant forall(j, 0, iter, scaledOK(scaled[j], p[j].Power, totalUnscaled))
+
+//@ pred ptSums(p *PowerTable) = sumPowDef(p.Entries) && p.Total == sumPow(p.Entries, len(p.Entries))
+//@     && len(p.ScaledPower) == len(p.Entries)
+//@     && forall(j, 0, len(p.Entries), p.Entries[j].Power > 0)
+//@     && forall(n, 0, len(p.Entries)+1, 0 <= sumPow(p.Entries, n) && sumPow(p.Entries, n) <= p.Total, trigger(sumPow(p.Entries, n)))
+//@     && forall(j, 0, len(p.Entries), p.Entries[j].Power <= p.Total)
+
+//@ func (*PowerTable).rescale
+//@   property C08
+//@   requires ptSums(p)
+//@   requires len(p.Entries) > 0
+//@   modifies p.ScaledTotal, p.ScaledPower[]
+//@   ensures result == nil
+//@   ensures 0 <= p.ScaledTotal && p.ScaledTotal <= 65535
+//@   ensures forall(i, 0, len(p.Entries), scaledOK(p.ScaledPower[i], p.Entries[i].Power, p.Total))
+//@   nooverflow
+//@   loop 1
+//@     invariant ptSums(p) && p.Entries == old(p.Entries) && p.ScaledPower == old(p.ScaledPower) && p.Total == old(p.Total)
+//@     invariant (iter == 0 ==> p.ScaledTotal == 0) && 0 <= p.ScaledTotal && p.ScaledTotal*p.Total <= 65535*sumPow(p.Entries, iter)
+//@     invariant forall(j, 0, iter, scaledOK(p.ScaledPower[j], p.Entries[j].Power, p.Total))
+
+//@ lemma scaling_is_order_preserving_and_agrees
+//@   property C08
+//@   vars s1 mathint, s2 mathint, p1 mathint, p2 mathint, T mathint
+//@   assume T > 0 && scaledOK(s1, p1, T) && scaledOK(s2, p2, T)
+//@   assert[order_preserving] p1 <= p2 ==> s1 <= s2
+//@   assert[floor_is_unique] p1 == p2 ==> s1 == s2
